@@ -74,7 +74,7 @@ func genC09(t *simrt.Tape, tier string) interface{} {
 			c.Bad = 1 + t.Draw(4)
 		}
 		k := p.Conf.Listeners[c.L]
-		if k == "ws" || k == "wss" || k == "inproc" {
+		if k == "inproc" || ((k == "ws" || k == "wss") && t.Draw(3) != 0) {
 			c.Raw = true // frames of these transports are observed through a scripted client
 		}
 		if c.Raw && k == "tcptls" && t.Draw(2) == 0 {
@@ -189,7 +189,7 @@ func runC09(w *World, pi interface{}) {
 			c.L = 0
 		}
 		kind := p.Conf.Listeners[c.L]
-		if kind == "ws" || kind == "wss" || kind == "inproc" {
+		if kind == "inproc" {
 			c.Raw = true
 		}
 		p.Clients[i] = c
@@ -314,6 +314,33 @@ func runC09(w *World, pi interface{}) {
 			wantEncAlt = filterOut(wantEnc, "tls")
 		}
 		wantComp := intersectS(p.Conf.Comp, []string{"none"})
+		// the two ends agree on which encryption is in force: what the client's transport reports is
+		// what the connection really carries
+		if !c.Raw && res[i].established && f.CliTransports[i] != nil {
+			got := string(f.CliTransports[i].Encryption())
+			truth := ""
+			switch kind {
+			case "ws":
+				truth = "none"
+			case "wss":
+				truth = "tls"
+			case "tcp", "tcptls":
+				if lk := links[i]; lk != nil {
+					// (TLS records follow the cleartext confirmation on the wire, or nothing but JSON does)
+					_, _, rest := splitCleartextFrames(lk.AB.Tap())
+					truth = "none"
+					if len(bytes.TrimSpace(rest)) > 0 && bytes.TrimSpace(rest)[0] == 0x16 {
+						truth = "tls"
+					}
+				}
+			}
+			if truth != "" && got != truth {
+				w.Violate("C09.ends-disagree-on-encryption", sig("client transport"), "client %d on %s is established and its transport reports encryption %q, the connection carries %q", i, kind, got, truth)
+			}
+		}
+		if !c.Raw && (kind == "ws" || kind == "wss") {
+			continue // (websocket frames of a real client are not read off the tap)
+		}
 		// frames the server sent, as seen by the client side
 		var sframes, cframes []map[string]interface{}
 		var s2cRest, c2sRest []byte
